@@ -738,11 +738,16 @@ def run(ck):
                    "the version/suite/compression/extension part of parseClientHello, parseServerHello, tls13ParseServerHello(+Extensions) are "
                    "hand-written Gallina (coq/Neg/NegModel.v) compared with the library on every run; key-material fitness "
                    "(haveKeyMaterial/haveCorrectKeyAlg/validateKeyForExtensions) and tls13ParseServerKeyShare enter as oracles",
-                   "props/neglib.py hello parser/re-encoder (man-in-the-middle)"]
+                   "(D)TLS <= 1.2 group / signature algorithm: tlsParseSupportedGroups, the ECDHE curve decision of parseClientHello, parseServerKeyExchange's "
+                   "curve checks, tlsVerify's algorithm checks, tlsParseSignatureAlgorithms, chooseSigAlgInt and parseCertificateVerify's algorithm test are "
+                   "modelled likewise; psEccX963ImportKey and psVerifySig enter as oracles",
+                   "props/neglib.py hello parser/re-encoder, ServerKeyExchange re-encoder in props/C07.py (man-in-the-middle)"]
     ck.assumptions += ["supportedVersions is the OR of supportedVersionsPriority[] and holds version identifiers only (wf_vcfg; established by addVersion)",
                        "hello version fields are decoded by psVerFromEncoding (decoded/sh_decoded/ch_decoded)",
                        "Finished/transcript integrity (that a tampered hello cannot complete) is exercised by the man-in-the-middle runs, not proved here (crypto: C11/C12)",
-                       "no SNI / pubkey callback / HTTP2 / PSK / session resumption in the modelled suite choice"]
+                       "no SNI / pubkey callback / HTTP2 / PSK / session resumption in the modelled suite choice",
+                       "CertificateVerify (client authentication) algorithm check is proved on the model and tied by tlsParseSignatureAlgorithms direct calls; no live client-auth sessions",
+                       "a hostile server's ServerKeyExchange with a VALID signature is produced by rewriting the ClientHello towards the honest server (its choice then contradicts what the client really offered)"]
     ck.build_repo()
     ck.regen([("consts.sh",)])
     ck.coq_properties()
@@ -1080,7 +1085,10 @@ def run(ck):
                     "(version lists in arbitrary priority order, explicit/default suite lists, EMS off/on/required per side, disabled suites, "
                     "TLS 1.3 group lists, fallback SCSV); MITM: every single field of both hellos (version, random incl. both sentinels, "
                     "session id, suite list / chosen suite, compression, every extension removed / bit-flipped at both ends / replaced, "
-                    "extension block removed or emptied). A case is non-trivial when negotiation succeeds or a suite is returned")
+                    "extension block removed or emptied). (D)TLS<=1.2 curves: ALL 31x31 pairs of non-empty subsets of the compiled-in curves as per-session "
+                    "ecFlags of client x server (direct calls and live TLS 1.2/RSA handshakes; TLS 1.1, ECDSA key, TLS 1.3-capable client, DTLS sampled / exhaustive "
+                    "in thorough), disjoint pairs included; ServerKeyExchange curve type / curve / point / algorithm / signature rewritten; ClientHello "
+                    "supported_groups rewritten or removed towards the honest server. A case is non-trivial when negotiation succeeds or a suite is returned")
 
 
 def replay(ck, path):
